@@ -48,14 +48,14 @@ STANDINS = {
     "C03": [{"mirror": "corpus_no_exception"}],
     "C04": [{"mirror": "valid_output_bounded"}],
     "C05": [{"mirror": "corpus", "trait": "none"}],
-    "C08": [{"mirror": "corpus", "trait": "cleanup"}],
-    "C09": [{"mirror": "corpus", "trait": "unused"}, {"mirror": "interface_positions"}, {"mirror": "remove_unused"}],
-    "C11": [{"mirror": "corpus", "trait": "symmetry"}],
-    "C12": [{"mirror": "corpus", "trait": "minmax_chains"}],
-    "C13": [{"mirror": "corpus", "trait": "sum_chains"}],
-    "C14": [{"mirror": "corpus", "trait": "math"}, {"mirror": "to_sympy"}],
-    "C15": [{"mirror": "corpus", "trait": "inline"}],
-    "C16": [{"mirror": "corpus", "trait": "projection"}],
+    "C08": [{"mirror": "corpus", "trait": "cleanup"}, {"mirror": "generated", "trait": "cleanup"}],
+    "C09": [{"mirror": "corpus", "trait": "unused"}, {"mirror": "interface_positions"}, {"mirror": "remove_unused"}, {"mirror": "generated", "trait": "unused"}],
+    "C11": [{"mirror": "corpus", "trait": "symmetry"}, {"mirror": "generated", "trait": "symmetry"}],
+    "C12": [{"mirror": "corpus", "trait": "minmax_chains"}, {"mirror": "generated", "trait": "minmax_chains"}],
+    "C13": [{"mirror": "corpus", "trait": "sum_chains"}, {"mirror": "generated", "trait": "sum_chains"}],
+    "C14": [{"mirror": "corpus", "trait": "math"}, {"mirror": "to_sympy"}, {"mirror": "generated", "trait": "math"}],
+    "C15": [{"mirror": "corpus", "trait": "inline"}, {"mirror": "generated", "trait": "inline"}],
+    "C16": [{"mirror": "corpus", "trait": "projection"}, {"mirror": "generated", "trait": "projection"}],
     "C18": [{"mirror": "auto_detect_bounded"}],
     "C19": [{"mirror": "verify_enable_bounded"}, {"mirror": "main_wiring"}, {"mirror": "predicate_list_bounded"}],
 }
